@@ -137,6 +137,8 @@ def show(e: Expr) -> str:
         return "POP_ALL"
     if k == "drop":
         return "DROP"
+    if k == "raw":
+        return e[1]
     if k == "tag":
         inner = e[2]
         if inner[0] in ("ref",) or inner[0] in _ATOMS:
@@ -218,6 +220,8 @@ def nullable(e: Expr, rules: dict[str, Rule], seen=()) -> bool:
         return nullable(e[1], rules, seen)
     if k == "tag":
         return nullable(e[2], rules, seen)
+    if k == "raw":
+        return bool(e[2])
     raise ValueError(e)
 
 
@@ -238,6 +242,8 @@ def well_formed(rules_list: list[Rule]) -> bool:
                 if e[2] is not None and e[3] is not None and e[2] > e[3]:
                     return False
             if k == "ref" and e[1] not in rules and e[1] not in builtin_names:
+                return False
+            if k == "raw" and any(n not in rules for n in e[3]):
                 return False
             if k == "push" and nullable(e[1], rules):
                 return False
@@ -289,6 +295,8 @@ def features(rules_list: list[Rule]) -> set[str]:
             f.add(e[0])
             if e[0] == "builtin":
                 f.add(e[1])
+            if e[0] == "raw":
+                f.update(e[4])
     if f & {"push", "pushlit", "peek", "peekslice", "peekall", "pop", "popall", "drop"}:
         f.add("stack")
     return f
@@ -311,6 +319,12 @@ AUX = {
     "atna": ("atna", "@", ("ref", "na")),
     "cpat": ("cpat", "$", ("seq", ("ref", "x"), ("ref", "at"))),
     "atnax": ("atnax", "@", ("seq", ("ref", "x"), ("ref", "na"), ("ref", "x"))),
+    "c1": ("c1", "$", ("str", "a")),
+    "n1": ("n1", "!", ("str", "b")),
+    "hn": ("hn", "", ("seq", ("ref", "c1"), ("ref", "n1"))),
+    "sc": ("sc", "_", ("choice", ("str", "b"), ("ref", "x"))),
+    "pf": ("pf", "", ("seq", ("pushlit", "a"), ("str", "!"))),
+    "qf": ("qf", "", ("seq", ("pop",), ("str", "!"))),
 }
 
 # name -> (expr, needs_stack_prelude)
@@ -358,6 +372,21 @@ KINDS: dict[str, tuple[Expr, bool]] = {
     "andx": (("and", ("ref", "x")), False),
     "notx": (("not", ("ref", "x")), False),
     "skipidiom": (("star", ("seq", ("not", ("choice", S("ab"), C)), ("any",))), False),
+    "vis2": (("seq", ("ref", "c1"), ("ref", "n1")), False),
+    "hidvis": (("ref", "hn"), False),
+    "vis3": (("seq", ("ref", "hn"), ("ref", "c1")), False),
+    "skipidiom2": (("star", ("seq", ("not", ("choice", S("ba"), S("ab"))), ("any",))), False),
+    "silentchoice": (("choice", S("ab"), ("ref", "sc")), False),
+    "cmref": (("seq", ("ref", "COMMENT"), B), False),
+    "wsref": (("seq", ("ref", "WHITESPACE"), B), False),
+    "optpf": (("seq", ("opt", ("ref", "pf")), ("peekall",)), False),
+    "repmaxpf": (("seq", ("rep", ("ref", "pf"), None, 2), ("peekall",)), False),
+    "optqf": (("seq", ("opt", ("ref", "qf")), ("peekall",)), True),
+    "starpf": (("seq", ("star", ("ref", "pf")), ("peekall",)), False),
+    "notpf": (("seq", ("not", ("ref", "pf")), ("peekall",)), False),
+    "tagsilent": (("tag", "tg", ("ref", "s")), False),
+    "tagplus": (("raw", "#tg = (x)+", False, ("x",), ("tag", "plus")), False),
+    "tagstar": (("raw", "#tg = (x ~ \"b\"?)*", True, ("x",), ("tag", "star")), False),
     "tagref": (("tag", "tg", ("ref", "x")), False),
     "taggrp": (("tag", "tg", ("seq", ("ref", "x"), B)), False),
     "push": (("push", ("choice", A, B)), False),
@@ -408,6 +437,8 @@ def _ctx(name: str, e: Expr):
         return ("seq", ("ref", "inner"), C), "", [("inner", name[1], e)]
     if name in ("a_", "a@", "a$", "a!"):
         return ("seq", ("ref", "inner"), C), "@", [("inner", name[1], ("seq", e, ("opt", A)))]
+    if name == "a=":
+        return ("seq", ("ref", "inner"), C), "@", [("inner", "", ("seq", e, ("opt", A)))]
     if name == "$!":
         return ("seq", ("ref", "inner"), C), "$", [("inner", "!", ("seq", e, ("opt", A)))]
     raise ValueError(name)
@@ -416,7 +447,7 @@ def _ctx(name: str, e: Expr):
 CONTEXTS = [
     "top", "seqL", "seqR", "alt1", "alt2", "opt", "star", "plus", "rep2", "repmin",
     "repmax", "repminmax", "and", "not", "push", "m_", "m@", "m$", "m!", "a_", "a@",
-    "a$", "a!", "$!",
+    "a$", "a!", "$!", "a=",
 ]  # fmt: skip
 
 WS1 = ("WHITESPACE", "_", ("str", " "))
@@ -452,9 +483,11 @@ def build(ctx: str, kind: str, triv: str) -> list[Rule] | None:
     pending = [body] + [x[2] for x in extra]
     while pending:
         for sub in walk(pending.pop()):
-            if sub[0] == "ref" and sub[1] in AUX and sub[1] not in used:
-                used.add(sub[1])
-                pending.append(AUX[sub[1]][2])
+            names = [sub[1]] if sub[0] == "ref" else list(sub[3]) if sub[0] == "raw" else []
+            for nm in names:
+                if nm in AUX and nm not in used:
+                    used.add(nm)
+                    pending.append(AUX[nm][2])
     for name in AUX:
         if name in used:
             rules.append(AUX[name])
@@ -489,6 +522,54 @@ def family(trivs: list[str] | None = None, ctxs=None, kinds=None) -> list[dict[s
                         "features": features(rules),
                     }
                 )
+    return out
+
+
+def stack_family() -> list[dict[str, Any]]:
+    """Nested stack grammars: an inner construct commits stack changes (pops below the
+    level of an enclosing backtracking point), then the enclosing construct fails or is
+    a predicate, and a tail observes the stack."""
+    PUSHX = ("push", ("any",))
+    PA = ("pushlit", "a")
+    POP, DROP, PEEKALL, POPALL = ("pop",), ("drop",), ("peekall",), ("popall",)
+    muts = {
+        "pop2": ("seq", POP, POP),
+        "drop2": ("seq", DROP, DROP),
+        "popall": POPALL,
+        "drop1": DROP,
+        "pop1": POP,
+        "drop2push": ("seq", DROP, DROP, ("pushlit", "c")),
+        "droppush": ("seq", DROP, ("pushlit", "b")),
+    }
+    inners = {
+        "plain": lambda m: m,
+        "opt": lambda m: ("opt", m),
+        "alt": lambda m: ("choice", m, S("zz")),
+        "and-then": lambda m: ("seq", ("and", m), m),
+    }
+    outers = {
+        "alt": lambda body, t: ("choice", ("seq", body, S("!")), t),
+        "opt": lambda body, t: ("seq", ("opt", ("seq", body, S("!"))), t),
+        "star": lambda body, t: ("seq", ("star", ("seq", body, S("!"))), t),
+        "and": lambda body, t: ("seq", ("and", body), t),
+        "not": lambda body, t: ("seq", ("not", ("seq", body, S("!"))), t),
+    }
+    tails = {"peekall": PEEKALL, "pop": POP, "dropdrop": ("seq", DROP, ("opt", DROP), ("opt", DROP))}
+    out = []
+    for on, of in outers.items():
+        for inn, inf in inners.items():
+            for mn, m in muts.items():
+                for tn, t in tails.items():
+                    body = ("seq", PA, inf(m))
+                    expr = ("seq", PUSHX, of(body, t))
+                    rules = [("r", "", expr)]
+                    if not well_formed(rules):
+                        continue
+                    out.append({"id": f"stk/{on}.{inn}/{mn}/{tn}", "ctx": f"stk.{on}.{inn}", "kind": mn, "triv": tn, "rules": rules, "text": show_grammar(rules), "features": features(rules)})
+    # three snapshots deep
+    deep = ("seq", PUSHX, ("choice", ("seq", PA, ("choice", ("seq", ("pushlit", "b"), ("opt", ("seq", DROP, DROP, DROP)), S("!")), ("seq", DROP, S("?"))), S("#")), PEEKALL))
+    rules = [("r", "", deep)]
+    out.append({"id": "stk/deep3/drop3/peekall", "ctx": "stk.deep3", "kind": "drop3", "triv": "peekall", "rules": rules, "text": show_grammar(rules), "features": features(rules)})
     return out
 
 
